@@ -113,6 +113,15 @@ func init() {
 			pv.Parallelism, pv.Strategy, pv.MaxAttempts, pv.MaxFail = "count2", "AnySuccessful", 2, 1
 			pv.PodActions, pv.MaxVanish = []string{"quick", "run", "vanish"}, 1
 			add(pv)
+			// A Job deleted at any moment (also before its first sync); its Pod may exit non-zero while terminating.
+			dj := jobBase("none-att2-delete-any-phase-latefail")
+			dj.MaxAttempts, dj.MaxFail = 2, 1
+			dj.DeleteJob = true
+			dj.PodActions = []string{"run", "succeed", "fail", "latefail"}
+			add(dj)
+			dj.Name, dj.Parallelism = "count2-att2-delete-any-phase", "count2"
+			dj.PodActions = []string{"quick"}
+			add(dj)
 		}
 		{
 			// A task reaped for its pending timeout finishes on its own during graceful deletion and then goes away.
@@ -176,6 +185,12 @@ func init() {
 		s.MaxAttempts, s.MaxFail = 2, 1
 		s.Budget = mc.Budget{Crashes: 1, Lag: 1}
 		add(s)
+		// An earlier attempt whose Pod is gone, then a kill that deletes the live attempt: the earlier one stays listed.
+		vk := jobBase("none-att2-vanish-kill")
+		vk.MaxAttempts, vk.MaxFail, vk.MaxVanish = 2, 1, 1
+		vk.PodActions = []string{"run", "fail", "vanish"}
+		vk.Kill, vk.MaxKill = []string{"0"}, 1
+		add(vk)
 		// Restart with informers that list one after the other.
 		for _, shape := range []string{"none", "count2"} {
 			cs := jobBase(shape + "-att2-coldrestart")
@@ -291,6 +306,10 @@ func init() {
 			s.PodActions = []string{"quick", "sched"}
 			add(s)
 		}
+		// One index in retry back-off when the other one succeeds; the back-off then elapses.
+		bo := jobBase("count2-Any-att2-delay10")
+		bo.Parallelism, bo.Strategy, bo.MaxAttempts, bo.RetryDelay, bo.MaxFail = "count2", "AnySuccessful", 2, 10, 1
+		add(bo)
 		// A helper container exits while the main container runs: the Pod is Running, the task is not over.
 		sc := jobBase("none-att2-sidecar-exits-first")
 		sc.MaxAttempts, sc.MaxFail, sc.MaxFlap = 2, 1, 1
@@ -423,6 +442,11 @@ func init() {
 		s.PodActions = []string{"run", "succeed", "sched"}
 		s.Horizon = 300
 		add(s)
+		// Kill of a Job whose running Pod carries an OOM-killed (and restarted) container.
+		ok := jobBase("none-kill-oomrestart")
+		ok.PodActions, ok.MaxFlap = []string{"run", "succeed", "oomrestart"}, 1
+		ok.Kill, ok.MaxKill = []string{"0", "30"}, 1
+		add(ok)
 		// Kill of a Job that is already "finished" by an admission error while tasks of other indexes live.
 		fk := jobBase("foreign-noowner-count2-kill")
 		fk.Parallelism, fk.ForeignPod, fk.MaxAttempts = "count2", "noowner", 2
